@@ -1,9 +1,165 @@
 import Driver.Util
-/-! driver ops of C10 (prefix `c10.`); filled in by the C10 work -/
+import Model.ZoneTxn
+/-! driver ops of C10 (prefix `c10.`): a whole transaction history on one line, its observable trace on one line.
+
+```
+c10.run  <origin> <rel> <rdclass> <d09> <d10> <ro> <exit:c|x> <zone> <ops>   -- the model of the code
+c10.spec <origin> <rel> <rdclass> <d09> <d10> <ro> <exit:c|x> <zone> <ops>   -- the reference model (flat map)
+c10.serial <old> <value> <relative>                                          -- newSerial
+c10.scmp <a> <b>                                                             -- Serial lt/gt
+zone := "-" | node (";" node)*        node := name "=" [rds ("&" rds)*]
+rds  := cls "/" type "/" covers "/" ttl "/" ("_" | val ("." val)*)
+ops  := "-" | op (";" op)*
+op   := ("add"|"rep"|"del"|"dex") ":" veto ":" [arg ("+" arg)*]
+      | "us:" veto ":" int ":" rel ":" name | "get:" name ":" t ":" c | "ex:" name | "ch" | "dump" | "commit" | "rollback"
+arg  := "n" name | "s" name "~" rds | "d" rds | "r" cls "/" type "/" covers "/" val | "i" nat | "x"
+```
+Output: one result per op (`ok`, `ok:<value>`, `err:<family>`), then `|`, then the published zone after leaving the
+`with` block, canonically sorted.
+-/
 namespace Driver
-open Model
+open Model Model.ZT
+
+def sortStrings (xs : List String) : List String := (xs.toArray.qsort (fun a b => a < b)).toList
+def sortNats (xs : List Nat) : List Nat := (xs.toArray.qsort (fun a b => a < b)).toList
+
+def parseRdata (cls t c : Nat) (s : String) : Option Rdata := do
+  let v ← s.toNat?
+  some { rdclass := cls, rdtype := t, covers := c, val := v }
+
+def parseRds (s : String) : Option Rdataset :=
+  match s.splitOn "/" with
+  | [cls, t, c, ttl, items] => do
+    let cls ← cls.toNat?; let t ← t.toNat?; let c ← c.toNat?; let ttl ← ttl.toNat?
+    let its ← if items = "_" then some [] else (items.splitOn ".").mapM (parseRdata cls t c)
+    some { rdclass := cls, rdtype := t, covers := c, ttl := ttl, items := its }
+  | _ => none
+
+def parseNode (s : String) : Option (Name × Node) :=
+  match s.splitOn "=" with
+  | [n, rs] => do
+    let n ← parseName n
+    let rs ← if rs = "" then some [] else (rs.splitOn "&").mapM parseRds
+    some (n, rs)
+  | _ => none
+
+def parseZone (s : String) : Option Nodes :=
+  if s = "-" then some [] else (s.splitOn ";").mapM parseNode
+
+def parseArg (s : String) : Option Arg :=
+  if s = "x" then some .other
+  else
+    let body := (s.drop 1).toString
+    match s.front with
+    | 'n' => (parseName body).map .name
+    | 's' =>
+      match body.splitOn "~" with
+      | [n, r] => do
+        let n ← parseName n
+        let r ← parseRds r
+        some (.rrset n r)
+      | _ => none
+    | 'd' => (parseRds body).map .rds
+    | 'r' =>
+      match body.splitOn "/" with
+      | [cls, t, c, v] => do
+        let cls ← cls.toNat?; let t ← t.toNat?; let c ← c.toNat?; let v ← v.toNat?
+        some (.rdata { rdclass := cls, rdtype := t, covers := c, val := v })
+      | _ => none
+    | 'i' => body.toNat?.map .int
+    | _ => none
+
+def parseArgs (s : String) : Option (List Arg) :=
+  if s = "" then some [] else (s.splitOn "+").mapM parseArg
+
+def parseOp (s : String) : Option Op :=
+  match s.splitOn ":" with
+  | ["add", v, a] => do some (.add (← parseArgs a) (← parseBool v))
+  | ["rep", v, a] => do some (.replace (← parseArgs a) (← parseBool v))
+  | ["del", v, a] => do some (.delete (← parseArgs a) (← parseBool v))
+  | ["dex", v, a] => do some (.deleteExact (← parseArgs a) (← parseBool v))
+  | ["us", v, value, rel, n] => do some (.updateSerial (← value.toInt?) (← parseBool rel) (← parseName n) (← parseBool v))
+  | ["get", n, t, c] => do some (.get (← parseName n) (← t.toNat?) (← c.toNat?))
+  | ["ex", n] => do some (.nameExists (← parseName n))
+  | ["ch"] => some .changed
+  | ["dump"] => some .dump
+  | ["commit"] => some .commit
+  | ["rollback"] => some .rollback
+  | _ => none
+
+def parseOps (s : String) : Option (List Op) :=
+  if s = "-" then some [] else (s.splitOn ";").mapM parseOp
+
+def showVals (items : List Rdata) : String :=
+  if items.isEmpty then "_" else ".".intercalate ((sortNats (items.map (·.val))).map toString)
+
+def showRds (r : Rdataset) : String :=
+  s!"{r.rdclass}/{r.rdtype}/{r.covers}/{r.ttl}/{showVals r.items}"
+
+def showNode (e : Name × Node) : String :=
+  showName (lowerName e.1) ++ "=" ++ "&".intercalate (sortStrings (e.2.map showRds))
+
+def showZone (v : Nodes) : String :=
+  if v.isEmpty then "-" else ";".intercalate (sortStrings (v.map showNode))
+
+/-- the flat map grouped by owner, in the same canonical form -/
+def showSZone (z : SZone) : String :=
+  let names := (z.map (·.1.1)).eraseDups
+  showZone (names.map fun n => (n, (z.filter (fun e => e.1.1 == n)).map (·.2)))
+
+/-- the initial flat map of a node map -/
+def flatten (v : Nodes) : SZone :=
+  v.flatMap fun e => e.2.map fun r => ((lowerName e.1, r.rdtype, r.covers), r)
+
+def showRes (r : Res) : String :=
+  match r with
+  | .error e => "err:" ++ e.toString
+  | .ok .unit => "ok"
+  | .ok (.rds none) => "ok:none"
+  | .ok (.rds (some r)) => "ok:" ++ showRds r
+  | .ok (.bool b) => if b then "ok:1" else "ok:0"
+  | .ok (.flag b) => if b then "ok:f1" else "ok:f0"
+  | .ok (.nodes v) => "ok:[" ++ showZone v ++ "]"
+
+def lowerKeys (v : Nodes) : Nodes := v.map fun e => (lowerName e.1, e.2)
 
 def handleC10 : List String → Option String
+  | ["c10.run", o, rel, cls, d09, d10, ro, ex, zone, ops] => do
+    let cfg : Cfg := { origin := ← parseName o, relativize := ← parseBool rel, rdclass := ← cls.toNat?,
+                       d09 := ← parseBool d09, d10 := ← parseBool d10 }
+    let ro ← parseBool ro
+    let exc ← if ex = "c" then some false else if ex = "x" then some true else none
+    let z := lowerKeys (← parseZone zone)
+    let ops ← parseOps ops
+    let s0 := if ro then beginRead z else beginWrite z
+    let (s1, rs) := run cfg s0 ops
+    let s2 := exitTxn s1 exc
+    some (" ".intercalate (rs.map showRes) ++ " | " ++ showZone s2.zone)
+  | ["c10.spec", o, rel, cls, _d09, _d10, ro, ex, zone, ops] => do
+    let cfg : Cfg := { origin := ← parseName o, relativize := ← parseBool rel, rdclass := ← cls.toNat?,
+                       d09 := false, d10 := false }
+    let ro ← parseBool ro
+    let exc ← if ex = "c" then some false else if ex = "x" then some true else none
+    let z := flatten (← parseZone zone)
+    let ops ← parseOps ops
+    let t0 := if ro then sBeginRead z else sBeginWrite z
+    let (t1, rs) := sRun cfg t0 (ops.map toSOp)
+    let t2 := sExit t1 exc
+    some (" ".intercalate (rs.map showRes) ++ " | " ++ showSZone t2.zone)
+  | ["c10.serial", old, value, rel] => do
+    let old ← old.toNat?; let value ← value.toInt?; let rel ← parseBool rel
+    some (match newSerial old value rel with
+      | .ok v => s!"ok:{v}"
+      | .error e => "err:" ++ e.toString)
+  | ["c10.scmp", a, b] => do
+    let a ← a.toInt?; let b ← b.toInt?
+    let a := Serial.make a; let b := Serial.make b
+    some s!"ok:{a}:{b}:lt={Serial.lt a b}:gt={Serial.gt a b}:le={Serial.le a b}:ge={Serial.ge a b}"
+  | ["c10.vname", o, rel, n] => do
+    let cfg : Cfg := { origin := ← parseName o, relativize := ← parseBool rel, rdclass := 1, d09 := false, d10 := false }
+    some (match validateName cfg (← parseName n) with
+      | .ok k => "ok:" ++ showName k
+      | .error e => "err:" ++ e.toString)
   | _ => none
 
 end Driver
